@@ -17,6 +17,10 @@ QUEUE_NAMES = ['Default Queue', 'Display Queue', 'mesa egl display queue', 'my q
 def fmt_time(t_us, d):
     if d['time'] == 'f':
         s = '[%10.3f] ' % (t_us / 1000.0)
+        if d.get('time_spelling') == 'long':
+            s = s[:-2] + '000] '                # the same number of milliseconds written with six decimals
+        elif d.get('time_spelling') == 'short' and s.endswith('0] '):
+            s = s[:-2].rstrip('0') + '0] ' if s[:-2].rstrip('0').endswith('.') else s[:-2].rstrip('0') + '] '   # trailing zeros dropped
         if d['mark'] == ',':
             s = s.replace('.', ',')
         return s
